@@ -116,6 +116,12 @@ class Report:
         done = False
         for line in text.splitlines():
             f = line.split('\t')
+            # a process that dies while printing (or a sanitizer report landing inside a line) leaves malformed records
+            # behind: they are dropped, the death itself is attributed through the progress file
+            if f[0] in ('STAT', 'CLAUSE') and (len(f) != 4 or not f[3].lstrip('-').isdigit()):
+                continue
+            if f[0] == 'SAMPLE' and (len(f) < 4 or not f[2].isdigit()):
+                continue
             if f[0] == 'VIOL' and len(f) >= 5:
                 self.add_violation(f[1], f[2], f[3], f[4], config)
             elif f[0] == 'STAT' and len(f) == 4:
